@@ -62,18 +62,18 @@ PROPS = {
         'not_covered': [],
     },
     'C14': {
-        'units': ['compare', 'subst'],
+        'units': ['compare', 'subst', 'contexts_a'],
         'functions': ['built_in_comparison.rs::get_two_constants', 'built_in_comparison.rs::bip_equal',
                       'built_in_comparison.rs::bip_less_than', 'built_in_comparison.rs::bip_less_than_or_equal',
                       'built_in_comparison.rs::bip_greater_than', 'built_in_comparison.rs::bip_greater_than_or_equal',
                       'substitution_set.rs::get_constant', 'substitution_set.rs::get_ground_term'],
-        'oracles': {'*': 'c14_compare'},
+        'oracles': {'*': 'c14_compare', '#infix_meaning': 'c14_infix', '#builtin_by_name': 'c14_infix', 'parse_goals.rs::parse_subgoal': 'c14_infix', 'parse_goals.rs::make_goal': 'c14_infix'},
         'bounded': [('c14_compare', 'all arms against Rust\'s own comparison of the converted operands (the proof of the integer/float arms is relative to the uninterpreted cast value i2f): 2815 operand pairs over extreme integers, -0.0, fractions, atoms, non-constants and variable chains')],
         'not_covered': [
             "'at most once' is the more_solutions flag of next_solution_bip: PROVED in unit solver (clause #once, C05 / C04: a built-in predicate is spent after one request)",
             'float/float arms are proved under the axiom that IEEE comparison is a function of its operands (obeys_eq_spec / obeys_partial_cmp_spec for f64)',
             'integer/float arms are proved relative to i2f(i), the uninterpreted value of the cast `i as f64` (rule R12 routes the cast through an external function; trusted T6: the cast is a function of i); that i2f is the IEEE round-to-nearest conversion is not proved - the bounded enumeration compares with Rust\'s own cast',
-            'infix parsing of the operators (string level)',
+            'infix parsing of the operators: PROVED since 8.42 (unit contexts_a) - `L op R` as a subgoal is the built-in predicate named after the operator (== equal, < less_than, <= less_than_or_equal, > greater_than, >= greater_than_or_equal, = unify) applied to the two operands, each parsed on its own (parse_subgoal #infix_meaning, make_goal #builtin_by_name); which character sequence is which operator is check_infix (a function of the text, T10)',
         ],
     },
     'C16': {
@@ -150,12 +150,12 @@ PROPS['C10'] = {
 }
 
 PROPS['C12'] = {
-    'units': ['arith'],
+    'units': ['arith', 'contexts_a'],
     'functions': ['built_in_arithmetic.rs::get_numbers', 'built_in_arithmetic.rs::get_integers', 'built_in_arithmetic.rs::get_floats',
                   'built_in_arithmetic.rs::evaluate_add', 'built_in_arithmetic.rs::evaluate_subtract',
                   'built_in_arithmetic.rs::evaluate_multiply', 'built_in_arithmetic.rs::evaluate_divide',
                   ],
-    'oracles': {'*': 'c12_arith'},
+    'oracles': {'*': 'c12_arith', '#meaning': 'c14_infix', '#flags_inv': 'c14_infix'},
     'bounded': [('c12_arith', 'evaluate_add / subtract / multiply / divide against the left-to-right fold computed with Rust\'s own f64 / i64 operators (the proof is relative to vstd\'s uninterpreted f64 operations '
                               'and to i2f): all 1- and 2-argument lists over a pool of 20 extreme integers and floats, '
                               '600 seeded lists of 3-4 arguments per operation (literal, through bound variables, through variable chains), and 2-operand infix forms through parse_term')],
@@ -165,7 +165,7 @@ PROPS['C12'] = {
         'that these functions are the IEEE-754 operations is the hardware\'s / rustc\'s business - the bounded enumeration compares with Rust\'s own operators bit for bit',
         'rule R13 writes `v.iter().fold(init, |mut acc, &x| {acc op= x; acc})` as the loop Iterator::fold is defined as (trusted T4: core\'s definition of fold for slice iterators; `acc op= x` is `acc = acc op x` for primitive numbers)',
         'subtract / divide with no argument at all panic (Vec::remove(0)); the claim is about the fold of at least one argument there',
-        'the infix forms `+ - * /` reach the same four functions through the infix parser (string level: bounded enumeration only)',
+        'the infix forms `+ - * /` reach the same four functions through the infix parser: PROVED since 8.33 / 8.42 (unit contexts_a, parse_term #meaning): `L op R` as a term is the function add / subtract / multiply / divide applied to the two operands; the oracle c14_infix checks it on the real parser',
         "'the value is then unified with the other operand' is C13 (proved)",
     ],
 }
